@@ -38,7 +38,8 @@ func (mon) Assumptions(string) []string {
 	return []string{
 		"for []byte a nil and an empty slice are not told apart when the expected value is empty",
 		"textual renderings are the canonical ones (strconv.FormatBool/FormatInt/FormatUint, FormatFloat 'g'/'e'/'f' shortest, Duration.String, base64 std with padding); JSON carries a Duration as integer nanoseconds and []byte as a base64 string",
-		"environment names are taken from a hand-written table of plain CamelCase identifiers (CFG_ + group path + field, upper snake case)",
+		"environment names are taken from a hand-written table (CFG_ + group path + field, upper snake case): plain CamelCase words, and identifiers that walk the word-boundary rule glb documents ('ABc => A_Bc' and the Underscore test table) at the start, in the middle and at the end of a name - a capital starts a word after a lower-case letter or before one (UserIDs = USER_I_DS, TLSv1 = TL_SV1), digits stay with the word before them and a capital after a digit starts a word only before a lower-case letter (Http2Tx = HTTP2_TX, A1B = A1B), underscores are boundaries",
+		"integer text (tag default, env, command line) follows Go integer-literal syntax as in the standard flag package, which config mirrors - decimal, 0x / 0o / 0b, leading-0 octal, _ separators - the syntax all four integer kinds parse with today (strconv base 0) and the one the C10 reference grammar assumes too; the statement itself does not spell it out",
 		"an environment variable such as CFG_CONFIG naming a file is not a source of the configuration path (the statement names -config and CFG_CONFIG_B64 only)",
 		"JSON null, unknown JSON keys and case-folded key matching are not generated; a Duration is never written as a JSON string and base64 is never written without padding (neither is accepted)",
 		"a JSON document that writes a member twice with the identical value mentions the field with that value (thorough tier only; members with two different values are never generated)",
@@ -123,6 +124,11 @@ func (mn mon) Run(sh drv.Shard, c *drv.Ctx) {
 	}
 	defer h.close()
 	deep = sh.Tier == "thorough" // before anything is generated
+	if msg := poolsDisjoint(); msg != "" {
+		fmt.Fprintln(os.Stderr, "cfgprio harness defect: name pools:", msg)
+		h.close()
+		os.Exit(2)
+	}
 	n := 0
 	exec := func(cs *Case) bool {
 		n++
@@ -210,7 +216,11 @@ func (mn mon) Run(sh drv.Shard, c *drv.Ctx) {
 		c.MaxOf(k, v)
 	}
 	for cell := range h.cells {
-		c.SetAdd("type_mask_cells", cell)
+		if name, ok := strings.CutPrefix(cell, "envname:"); ok {
+			c.SetAdd("field_names_decided_by_their_env_name", name)
+		} else {
+			c.SetAdd("type_mask_cells", cell)
+		}
 	}
 }
 
@@ -219,6 +229,15 @@ func (mon) Finish(prop, tier string, mg *drv.Merged) (inconclusive []string) {
 	if mg.Sum["lattice_shards_done"] == int64(latticePartsOf(tier)) {
 		if n := len(mg.Sets["type_mask_cells"]); n != nTypes*16 {
 			inconclusive = append(inconclusive, fmt.Sprintf("only %d of %d type x mask cells were observed", n, nTypes*16))
+		}
+		seen := map[string]bool{}
+		for _, n := range mg.Sets["field_names_decided_by_their_env_name"] {
+			seen[n] = true
+		}
+		for _, fe := range fieldPool {
+			if !seen[fe.Go] {
+				inconclusive = append(inconclusive, "the environment name of field "+fe.Go+" never decided a field")
+			}
 		}
 		for _, w := range []string{"winner_cli", "winner_env", "winner_json", "winner_default", "winner_none", "winner_is_empty_text",
 			"history_prefilled_cases", "history_reload_cases", "history_fields_prestate_differs", "history_fields_prestate_differs_want_zero_by_omission"} {
